@@ -245,7 +245,7 @@ def struct_check(rep, tier, seed, scratch):
 def validate(rep, prop, scenarios, scratch, label='impl', struct_owner=None):
     traces = []
     for sc in scenarios:
-        raw = er.run_scenario(sc, watchdog=5.0)
+        raw = er.run_scenario(sc, watchdog=20.0)
         traces.append(er.to_records(sc, raw))
     return judge(rep, prop, scenarios, traces, scratch, label, struct_owner)
 
